@@ -81,6 +81,13 @@ RenValid(cols, from, to) ==
          /\ Head(to) \notin Rng(cols)         \* can't rename to existing column
          /\ RenValid(Ren1(cols, Head(from), Head(to)), Tail(from), Tail(to))
 
+RECURSIVE RenTouches(_, _, _)
+\* some pair of the sequential renaming changes s
+RenTouches(s, from, to) ==
+    /\ from # <<>>
+    /\ \/ Head(from) \in Rng(s)
+       \/ RenTouches(Ren1(s, Head(from), Head(to)), Tail(from), Tail(to))
+
 -----------------------------------------------------------------------------
 (* schema helpers *)
 
@@ -365,10 +372,13 @@ AlterRenameRes(S, r) ==
     LET tb == S.sch[r.t]
         olds == [i \in 1..Len(tb.idxs) |-> tb.idxs[i].cols]
         news == [i \in 1..Len(tb.idxs) |-> RenAll(olds[i], r.from, r.to)]
-        \* the code compares the new columns of an index with the not yet renamed
-        \* later indexes ("rename causes duplicate index", e.g. swapping a and b
-        \* with index(a,b) index(b,a)): not a real duplicate, outcome left open
-        spurious == \E i, j \in 1..Len(olds) : i < j /\ news[i] # olds[i] /\ news[i] = olds[j]
+        \* the code compares the new columns of an index a rename pair touched with
+        \* the not yet renamed columns of itself and of the later indexes ("rename
+        \* causes duplicate index", e.g. swapping a and b with index(a,b) index(b,a),
+        \* or renaming a to z and back in one request): not a real duplicate, outcome
+        \* left open
+        spurious == \E i, j \in 1..Len(olds) :
+                       i <= j /\ RenTouches(olds[i], r.from, r.to) /\ news[i] = olds[j]
         ixs == [i \in 1..Len(tb.idxs) |->
                   [tb.idxs[i] EXCEPT !.cols = news[i],
                                      !.bk = RenAll(@, r.from, r.to),
